@@ -10,6 +10,8 @@ guarding each `+1` is the exact remainder of the operation that produced the inc
 value (Q64 mask / resolution constants, `%` of the same operands, the U256 division's own
 remainder); the (min, max) price ordering; the reach-target decision (`lte` is v <= budget,
 overflow counts as not reached, target taken exactly when lte).
+Also decided: whether a curve amount fits u64 is decided only inside the two curve primitives (AmountDeltaU64 is built
+nowhere else); no amount or rate is narrowed with `as` in the step computation or the loop (C06.R8 instances).
 Not decided: equality with exact rational arithmetic, one-unit tightness, "as far as
 the budget allows", correctness of the 256-bit division. Pure numerics."""
 from analysis import cfg, atoms as A, preach, writes
